@@ -182,6 +182,12 @@ func (d *db) makeRoomForWrite() error {
 // switchToNewLog flushes the index of the current log file to disk, update the
 // readState hold by the db and then switch to a new log file.
 func (d *db) switchToNewLog() error {
+	// records already written to the current log file by the ongoing save are
+	// not covered by the fsync issued on the new log file, make them durable
+	// before the index pointing to them is saved and the file is closed.
+	if err := d.mu.logFile.Sync(); err != nil {
+		return err
+	}
 	if err := d.saveIndex(); err != nil {
 		return err
 	}
